@@ -127,7 +127,8 @@ class PersLandscapeExact(PersLandscape):
         super().__init__(dgms=dgms, hom_deg=hom_deg)
         self.critical_pairs = critical_pairs
         if dgms:
-            self.dgms = dgms[self.hom_deg]
+            # floating point, so that narrow integer diagrams do not wrap around in (b + d) / 2
+            self.dgms = np.asarray(dgms[self.hom_deg], dtype=float)
         else:  # critical pairs are passed. Is this the best check for this?
             self.dgms = dgms
         if not dgms and not critical_pairs:
